@@ -11,7 +11,7 @@ import ast
 from typing import Dict, List, Optional, Set, Tuple
 
 from ..model import AnchorError, Program, dotted, last_attr, norm, parent, walk_no_nested
-from ..report import Check
+from ..report import Check, guard
 from ..unordered import MINMAX, ORDER_INSENSITIVE_CONSUMERS, FunctionCtx, SetTyping, Sink
 from .common import calls_in, guards_of, stmt_of
 
@@ -751,5 +751,5 @@ _run_123 = run
 
 
 def run(prog: Program, chk: Check) -> None:  # noqa: F811
-    _run_123(prog, chk)
-    r10_4(prog, chk)
+    guard(chk, _run_123, prog, chk)
+    guard(chk, r10_4, prog, chk)
